@@ -99,6 +99,16 @@ def generate(rng, tier):
         blay = lambda: rng.choice(["w", "w", "c", "f", "s2", "rev", "perm"])
         # correct buffer
         cases.append({"line": mk(e_ainto(S, qshape, req, *qargs, qtag=qtag, blay=blay())), "meta": {"ok": True}})
+        # correct buffer, but one rejected query element in front of accepted ones: the call must not return Ok (and a row
+        # it never wrote must not be reported as written)
+        if nq >= 2 and (rng.random() < 0.5 or (two_d and len(qshape) == 1)):
+            pos = rng.randrange(nq - 1)
+            qb = [list(a) for a in qargs]
+            axq = rng.randrange(len(qb))
+            axis_v = (xs if axq == 0 else ys) if two_d else xs
+            span = axis_v[-1] - axis_v[0]
+            qb[axq][pos] = axis_v[-1] + span
+            cases.append({"line": mk(e_ainto(S, qshape, req, *qb, qtag=qtag, blay=blay())), "meta": {"ok": "oob"}})
         # wrongly shaped buffers
         ws = wrong_shapes(rng, qshape, trailing, dyn_q or dyn_d)
         rng.shuffle(ws)
@@ -130,13 +140,15 @@ def generate(rng, tier):
 
 
 def nontrivial(case, res):
-    return not case["meta"]["ok"]
+    return case["meta"]["ok"] is not True
 
 
 def oracle(case, res):
     ok = case["meta"]["ok"]
     if "!outside" in res.raw:
         return f"memory outside the buffer view was modified: {res.raw[-40:]}"
+    if ok == "oob":
+        return None if res.kind == "oob" else f"a batch with a rejected element must return OutOfBounds, got {res.raw[:100]}"
     if ok:
         if res.kind != "ok":
             return f"a correctly shaped buffer must be accepted, got {res.raw[:80]}"
